@@ -365,3 +365,77 @@ def s_eager_globals(_ctx):
 
 SCENARIOS.append(Scenario("C14.eager.globals", s_eager_globals, [("onnxscript/_internal/main.py", "script"), ("onnxscript/_internal/main.py", "script.transform")],
                           kind="evaluation"))
+
+
+CL_SEED = "C14: 'gives the same serialized result in every process - regardless of hash randomisation'"
+
+
+def s_graph_pattern_output_nodes(ctx, n_out=1):
+    """GraphPattern.__init__: output_nodes (the roots the matcher starts from, in this order) is a function of the OUTPUTS
+    SEQUENCE and the pattern structure only: the producers of the outputs in order of first appearance, a producer being
+    skipped when it lies in the backward slice of an earlier root.  The engine runs the constructor under the
+    arbitrary-set-order model (every iteration over a set forks over every order), so a result that depends on the
+    iteration order of a set fails on some path.  Returned choice values must be inputs of a covered node.
+    bounded: pattern DAGs of <= 3 nodes (every edge subset) + one Or value, every output sequence of length <= 3."""
+    from onnxscript.rewriter import _pattern_ir as P
+    I = Interp(ctx)
+    I.set_order_nondet = True
+    x = P.Var("x")
+    alt = P.BacktrackingOr([P.Var("p"), P.Var("q")])
+    nodes = []
+    preds = []
+    for i in range(3):
+        ins = [x]
+        pr = set()
+        for j in range(i):
+            if ctx.choose(2, f"node {i} reads node {j}") == 1:
+                ins.append(nodes[j].outputs[0])
+                pr.add(j)
+        uses_or = i > 0 and ctx.choose(2, f"node {i} reads the Or value") == 1
+        if uses_or:
+            ins.append(alt)
+        nodes.append(P.NodePattern("", f"Op{i}", ins, {}, [f"o{i}", f"o{i}b"], allow_other_attributes=None, allow_other_inputs=None))
+        preds.append((pr, uses_or))
+    cands = [n.outputs[0] for n in nodes] + [nodes[2].outputs[1], alt]
+    outs_idx = [ctx.choose(len(cands), f"output {k}") for k in range(n_out)]
+    outs = [cands[k] for k in outs_idx]
+
+    # specification, from the pattern structure alone
+    def slice_of(i, acc):
+        if i in acc:
+            return
+        acc.add(i)
+        for j in preds[i][0]:
+            slice_of(j, acc)
+    covered, roots, ret_or = set(), [], False
+    for k in outs_idx:
+        if k == 4:
+            ret_or = True
+            continue
+        i = 2 if k == 3 else k
+        if i not in covered:
+            roots.append(i)
+            slice_of(i, covered)
+    or_covered = any(preds[i][1] for i in covered)
+    try:
+        gp = I.instantiate(P.GraphPattern, [[x], outs, nodes], {})
+    except PyRaise as e:
+        ctx.check("C14.graph_pattern.rejects_exactly_an_uncovered_returned_choice_value",
+                  isinstance(e.exc, NotImplementedError) and ret_or and not or_covered, CL_SEED)
+        return
+    ctx.check("C14.graph_pattern.rejects_exactly_an_uncovered_returned_choice_value", not (ret_or and not or_covered), CL_SEED)
+    got = I.getattr(gp, "output_nodes")
+    ctx.check("C14.graph_pattern.output_nodes_follow_the_outputs_sequence_under_every_set_iteration_order",
+              isinstance(got, list) and [id(n) for n in got] == [id(nodes[i]) for i in roots], CL_SEED)
+
+
+for _n in (1, 2, 3):
+    def _mk(n):
+        def run(ctx):
+            return s_graph_pattern_output_nodes(ctx, n)
+        run.__doc__ = s_graph_pattern_output_nodes.__doc__
+        return run
+    SCENARIOS.append(Scenario(f"C14.graph_pattern.output_nodes[{_n} outputs]", _mk(_n),
+                              [("onnxscript/rewriter/_pattern_ir.py", "GraphPattern.__init__"), ("onnxscript/rewriter/_pattern_ir.py", "_add_backward_slice")],
+                              kind="bounded", max_paths=8000,
+                              trusted=["arbitrary-set-order model: list()/for over a native set forks over every permutation (sets of <= 4 elements)"]))
